@@ -10,11 +10,14 @@ closes the transport, within the handshake timeout even if the server never answ
 server sends directly behind its 101 response, even in the same segment, are not lost.
 
 The theorems are about `Hs.clientHandshake` / `Hs.clientOutcome` / `Hs.requestHeader`
-(Model/Handshake.lean); the input is the response as `http.ReadResponse` parsed it, `get` is
-`http.Header.Get` (first line of that name), `key` is the `Sec-WebSocket-Key` this connector sent.
-As on the server side (C10) "a Connection upgrade token" is implemented as "the first Connection
-line contains the letters `upgrade` in any ASCII case", and `Upgrade` is compared by Unicode simple
-case folding (`Hs.foldEq`); `Hs.token_imp_contains` shows a genuine token is always recognised.
+(Model/Handshake.lean); the input is the response as `http.ReadResponse` parsed it, `vals` is
+`http.Header.Values` (all lines of that name), `get` is `http.Header.Get` (the first one), `key` is
+the `Sec-WebSocket-Key` this connector sent.  "A Connection upgrade token" is `HasToken`: an element
+of the comma-separated, trimmed values of ANY `Connection` line equal to `upgrade` up to ASCII
+letter case.  Remaining latitude, as on the server side (C10): `Upgrade` is read from its first line,
+as a whole, and compared by Unicode simple case folding (`Hs.foldEq`; `websocKet` with U+212A passes,
+see `Hs.nonascii_fold_accepted`); the two `Sec-WebSocket-Protocol` values (configured request header,
+response) are read from their first line only.
 
 Clauses covered by the tie only (suite `hs-client`), because they are facts about the run-time
 environment and not about the decision logic — no theorem here pretends otherwise:
@@ -33,19 +36,21 @@ namespace Hs
 open Sha1 (asc)
 
 /-- **C11, decision.**  For every parsed response, key and option set: a connection is returned iff
-the status is 101, the (first) `Connection` value contains `upgrade` in any ASCII letter case, the
-(first) `Upgrade` value is `websocket` up to case folding, `Sec-WebSocket-Accept` is EXACTLY
-base64(SHA-1(key ++ GUID)), and the client requested no sub-protocol or one of those it requested is
-among the comma-separated elements of the response's `Sec-WebSocket-Protocol`. -/
+the status is 101, some `Connection` line has `upgrade` (any ASCII letter case) among its
+comma-separated elements, the (first) `Upgrade` value is `websocket` up to case folding,
+`Sec-WebSocket-Accept` is EXACTLY base64(SHA-1(key ++ GUID)), and the client requested no
+sub-protocol or one of those it requested is among the comma-separated elements of the response's
+`Sec-WebSocket-Protocol`. -/
 theorem client_accepts_iff (o : ClientOpt) (key : Str) (resp : Resp) :
     (clientOutcome o key resp).conn ≠ none ↔
       (resp.status = 101 ∧
-       asc "upgrade" <:+: lower (get resp.header kConnection) ∧
+       HasToken (vals resp.header kConnection) (asc "upgrade") ∧
        foldEq (get resp.header kUpgrade) (asc "websocket") = true ∧
        get resp.header kAccept = Base64.encode (Sha1.sha1 (key ++ asc Facts.magicNumber)) ∧
        (split (get o.requestHeader kProtocol) = [] ∨
         ∃ p, p ∈ split (get o.requestHeader kProtocol) ∧ p ∈ split (get resp.header kProtocol))) := by
-  have hsub := subprotocolOk_iff (split (get o.requestHeader kProtocol)) (get resp.header kProtocol)
+  have hsub := subprotocolOk_iff (split (get o.requestHeader kProtocol)) (split (get resp.header kProtocol))
+    (fun x hx => mem_split_ne_nil hx)
   unfold SubprotocolOk at hsub
   have hp := respChecksPass_iff key resp
   constructor
@@ -61,30 +66,6 @@ theorem client_accepts_iff (o : ClientOpt) (key : Str) (resp : Resp) :
   · rintro ⟨h1, h2, h3, h4, h5⟩
     have := (clientHandshake_ok_iff o key resp _).2 ⟨hp.2 ⟨h1, h2, h3, h4⟩, rfl, hsub.1 h5⟩
     simp [clientOutcome, this]
-
-/- The statement's own reading of the `Connection` clause (a genuine *token*) is, as in C10, false in
-   the "only if" direction (`client_substring_not_token_accepted`); the direction that holds: -/
-
-/-- **C11, token reading, must-accept direction.**  A response whose `Connection` value has `upgrade`
-among its comma-separated elements (any case) and that satisfies the other conditions is accepted. -/
-theorem client_token_present_accepts (o : ClientOpt) (key : Str) (resp : Resp)
-    (hs : resp.status = 101) (hc : hasToken (get resp.header kConnection) (asc "upgrade"))
-    (hu : foldEq (get resp.header kUpgrade) (asc "websocket") = true)
-    (ha : get resp.header kAccept = Base64.encode (Sha1.sha1 (key ++ asc Facts.magicNumber)))
-    (hp : split (get o.requestHeader kProtocol) = [] ∨
-      ∃ p, p ∈ split (get o.requestHeader kProtocol) ∧ p ∈ split (get resp.header kProtocol)) :
-    (clientOutcome o key resp).conn ≠ none :=
-  (client_accepts_iff o key resp).2 ⟨hs, (contains_iff_infix _).1 (token_imp_contains hc), hu, ha, hp⟩
-
-/-- **Witness (difference from the statement).**  A 101 response with `Connection: upgradex` — no
-`upgrade` token — is accepted. -/
-theorem client_substring_not_token_accepted :
-    ¬ hasToken (asc "upgradex") (asc "upgrade") ∧
-    (clientOutcome ⟨[]⟩ (asc "dGhlIHNhbXBsZSBub25jZQ==")
-      { status := 101,
-        header := [(canon kConnection, [asc "upgradex"]), (canon kUpgrade, [asc "websocket"]),
-                   (canon kAccept, [asc "s3pPLMBiTxaQ9kYGzzhZRbK+xOo="])] }).conn ≠ none := by
-  decide +kernel
 
 /-- **C11, refused.**  When no connection is returned, an error is returned and the transport is
 closed; when one is returned, no error is returned and the transport is left open. -/
@@ -182,14 +163,21 @@ theorem request_headers (o : ClientOpt) (key : Str) (ext : Option Str) :
     · intro h; cases h
 
 -- non-vacuity: the RFC 6455 sample exchange is accepted, each check can fail, selection follows
--- the client's order of preference
+-- the client's order of preference; the token may sit on a later line, in any case, between blanks;
+-- letters around it do not make a token
+example : (clientOutcome ⟨[]⟩ (asc "dGhlIHNhbXBsZSBub25jZQ==")
+      (sampleResponse [asc "keep-alive", asc "x ,\tUPGRADE "] (asc "s3pPLMBiTxaQ9kYGzzhZRbK+xOo=") [])).conn = some [] := by
+  decide +kernel
+example : clientOutcome ⟨[]⟩ (asc "dGhlIHNhbXBsZSBub25jZQ==")
+      (sampleResponse [asc "upgradex", asc "no-upgrade", asc "keep-alive, upgrades"] (asc "s3pPLMBiTxaQ9kYGzzhZRbK+xOo=") [])
+    = { conn := none, closed := true, err := some .connection } := by decide +kernel
 example : clientOutcome ⟨[(canon kProtocol, [asc "chat, mqtt"])]⟩ (asc "dGhlIHNhbXBsZSBub25jZQ==")
-      (sampleResponse (asc "s3pPLMBiTxaQ9kYGzzhZRbK+xOo=") [asc "mqtt,chat"])
+      (sampleResponse [asc "upgrade"] (asc "s3pPLMBiTxaQ9kYGzzhZRbK+xOo=") [asc "mqtt,chat"])
     = { conn := some (asc "chat"), closed := false, err := none } := by decide +kernel
 example : clientOutcome ⟨[]⟩ (asc "dGhlIHNhbXBsZSBub25jZQ==")
-      { sampleResponse (asc "s3pPLMBiTxaQ9kYGzzhZRbK+xOo=") [] with status := 200 }
+      { sampleResponse [asc "upgrade"] (asc "s3pPLMBiTxaQ9kYGzzhZRbK+xOo=") [] with status := 200 }
     = { conn := none, closed := true, err := some .status } := by decide +kernel
-example : clientOutcome ⟨[]⟩ (asc "dGhlIHNhbXBsZSBub25jZQ==") (sampleResponse (asc "s3pPLMBiTxaQ9kYGzzhZRbK+xOo") [])
+example : clientOutcome ⟨[]⟩ (asc "dGhlIHNhbXBsZSBub25jZQ==") (sampleResponse [asc "upgrade"] (asc "s3pPLMBiTxaQ9kYGzzhZRbK+xOo") [])
     = { conn := none, closed := true, err := some .accept } := by decide +kernel
 example : clientOutcome ⟨[]⟩ (asc "dGhlIHNhbXBsZSBub25jZQ==")
       { status := 101, header := [(canon kConnection, [asc "close"])] }
@@ -198,7 +186,7 @@ example : clientOutcome ⟨[]⟩ (asc "dGhlIHNhbXBsZSBub25jZQ==")
       { status := 101, header := [(canon kConnection, [asc "Upgrade"]), (canon kUpgrade, [asc "h2c"])] }
     = { conn := none, closed := true, err := some .upgrade } := by decide +kernel
 example : clientOutcome ⟨[(canon kProtocol, [asc "chat"])]⟩ (asc "dGhlIHNhbXBsZSBub25jZQ==")
-      (sampleResponse (asc "s3pPLMBiTxaQ9kYGzzhZRbK+xOo=") [asc "mqtt"])
+      (sampleResponse [asc "upgrade"] (asc "s3pPLMBiTxaQ9kYGzzhZRbK+xOo=") [asc "mqtt"])
     = { conn := none, closed := true, err := some .subprotocol } := by decide +kernel
 example : (requestHeader ⟨[(canon kConnection, [asc "close"]), (asc "X-Token", [asc "t"])]⟩ (asc "K") none)
     = [(asc "X-Token", [asc "t"]), (canon kConnection, [asc "Upgrade"]), (canon kUpgrade, [asc "websocket"]),
